@@ -13,9 +13,11 @@ META = {
                    'a fresh distinct seed per work package (the current code) no raw draw is consumed twice and all sample vectors '
                    'differ; with forked copies (the code before 883a02d) the clause is refuted for every schedule in which two '
                    'workers run a task, and exactly the tasks of equal rank on their worker coincide. Supports of the documented '
-                   'uniform / triangular / binomial transforms are proved (sqrt as an explicit premise). The row-count clause is '
-                   'proved under mutual exclusion of the lock and REFUTED without it (pylocker interleaving; reproduced on the real '
-                   'code: known finding). Tied to the current work_package by observed runs: numpy calls made vs the modelled '
+                   'uniform / triangular / binomial transforms are proved (sqrt as an explicit premise). Row count: for the current code '
+                   '(row flushed while the lock is believed held, 1d8733c) one row per finished work package is proved for every '
+                   'interleaving of the pylocker protocol without time-out; it stays REFUTED by the 10 s time-out (known finding, '
+                   'reproduced on the real code); the code before 1d8733c is kept as lrun_pinned with its _refuted theorem (double '
+                   'acquisition loses a row) and its interleaving is forced on real work packages on every run. Tied to the current work_package by observed runs: numpy calls made vs the modelled '
                    'dispatch, seeding discipline vs observed duplicate pattern, supports and row count evaluated by Coq-defined '
                    'checkers on the rows of real runs with 1..16 workers.'),
     'level_note': ('Trusted: Coq kernel + vm_compute; the Python harness that wraps work_package / np.random / Locker with '
@@ -39,7 +41,9 @@ META = {
                     'sqrt is non-negative, monotone and inverts squaring (premise of the triangular support theorem)'],
     'fingerprint': [('src/geophires_monte_carlo/MC_GeoPHIRES3.py', 'work_package'), ('src/geophires_monte_carlo/MC_GeoPHIRES3.py', 'main')],
 }
-LOCK_WHAT = {'lock-double-acquire': "pylocker lets two workers hold the lock; the one whose release is refused never flushes its row",
+LOCK_WHAT = {'lock-double-acquire': "pylocker let two workers hold the lock and the release of this one was refused: its row was not flushed "
+                                    "while the lock was held (regression of 1d8733c)",
+             'lock-gave-up-early': 'the lock was given up before the 10 s time-out',
              'lock-timeout': 'after the 10 s lock time-out the row is silently dropped (fd is None)'}
 
 
@@ -145,17 +149,18 @@ def analyse(ctx, run, bools):
 
 
 def lock_model_check(ctx, run, rows, ok, bools):
-    """forced double acquisition (corpus): which row survives vs Model.MonteCarlo.double_acquire_schedule"""
+    """forced double acquisition (corpus): which rows reach the file vs Model.MonteCarlo.double_acquire_schedule under the
+    current lock model (row flushed while the lock is believed held: both; before 1d8733c only B's)"""
     roles = {t['role']: t for t in run.tasks}
-    same = {'A', 'B'} <= set(roles) and mc.task_entries(roles['A']) == mc.task_entries(roles['B'])
-    if len(ok) == 2 and len(rows) == 1 and {'A', 'B'} <= set(roles) and not same:
-        survivor = [k for k in 'AB' if tuple(v for _, v in mc.task_entries(roles[k])) == tuple(v for _, v in rows[0]['ins'])]
-        obs = '[' + '; '.join(str('AB'.index(k)) for k in survivor) + ']%nat'
+    if len(ok) == 2 and {'A', 'B'} <= set(roles) and mc.task_entries(roles['A']) != mc.task_entries(roles['B']):
+        rowvals = [tuple(v for _, v in r['ins']) for r in rows]
+        present = [k for k in 'AB' if tuple(v for _, v in mc.task_entries(roles[k])) in rowvals]
+        obs = '[' + '; '.join(str('AB'.index(k)) for k in present) + ']%nat'
         bools.append((f'nat_list_eqb (file (lrun linit double_acquire_schedule)) {obs}', lambda: ctx.violate(
-            'corr', 'lockmodel:double-acquire', 'the row that survives the forced double acquisition is not the one the lock model predicts',
-            inp=_inp(run), expected='[1] (B)', observed=survivor)))
+            'corr', 'lockmodel:double-acquire', 'the rows that reach the file under the forced double acquisition are not those the lock model predicts',
+            inp=_inp(run), expected='[0; 1] (A and B)', observed=present)))
     else:
-        ctx.note(f'forced double acquisition: {len(rows)} rows for {len(ok)} finished work packages (lock model predicts 1 for 2)')
+        ctx.note(f'forced double acquisition: {len(rows)} rows for {len(ok)} finished work packages, roles {sorted(roles)}')
 
 
 def pool_specs(ctx):
@@ -179,9 +184,9 @@ def correspondence(ctx, proofs_ok=True):
     for i in failing:
         bools[i][1]()
     ctx.count('kernel-checks', evaluations=len(bools))
-    # the framework starts the search only when no 'property' violation exists at all; the known lock findings are such
-    # violations on every run, so the search is started here when everything else is only a broken tie
-    fresh = [v for v in ctx.violations if not v.key.startswith('rowcount:lock-')]
+    # the framework starts the search only when no 'property' violation exists at all; the known lock time-out finding is such
+    # a violation on every run, so the search is started here when everything else is only a broken tie
+    fresh = [v for v in ctx.violations if v.key != 'rowcount:lock-timeout']
     if fresh and not any(v.kind == 'property' for v in fresh):
         search(ctx)
 
